@@ -618,6 +618,10 @@ def main(tier, seed, replay=None):
     ]
     if replay:
         rp = json.load(open(replay))['replay']
+        if 'driver_scenario' in rp:
+            from . import C10_drivers
+            C10_drivers.replay(out, rp)
+            return out.finish()
         _init()
         t = execute(rp['scenario'])
         t['id'] = 1
@@ -664,6 +668,11 @@ def main(tier, seed, replay=None):
                 'deadlines; three patterns with shared prefixes; schedule policy fifo|random|PCT, with and without time advancing past '
                 'runnable threads; reliable and unreliable link); distinct = distinct observable histories')
     out.samples = [{'scenario': scs[i], 'events': traces[i]['ev'][:12]} for i in (0, 100, len(scs) - 1)]
+
+    # "nothing is ever transmitted on a closed link" on the real driver objects (the simulated link
+    # above only assumes it: its 'drop' events): spec/DriverClose*.tla
+    from . import C10_drivers
+    C10_drivers.run(out, tier, seed)
 
     sub = systematic()[::2] + [gen_scenario(random.Random(seed + 7 + i), reliable=(i % 5 == 0)) for i in range(200)]
     races = [sc for sc in systematic() if sc['policy'][0] == 'park']
